@@ -593,6 +593,42 @@ fn child_main(file: &str, start: usize, end: usize) {
 }
 
 // ------------------------------------------------------------------ parent: run cases in children
+/// Second opinion on a case that made a child die / stall: the case alone in a fresh child with a
+/// generous timeout (a loaded machine must not turn a slow process start into a `timeout`).
+fn run_alone(exe: &std::path::Path, infile: &str, idx: usize, timeout_s: u64) -> String {
+    let cmd = format!("ulimit -v 8388608; exec '{}' --child '{}' {} {}", exe.display(), infile, idx, idx + 1);
+    let mut ch = match std::process::Command::new("sh")
+        .arg("-c")
+        .arg(&cmd)
+        .stdout(std::process::Stdio::piped())
+        .stderr(std::process::Stdio::null())
+        .spawn()
+    {
+        Ok(c) => c,
+        Err(_) => return "error spawn m=0 t=0".into(),
+    };
+    let so = ch.stdout.take().unwrap();
+    let (tx, rx) = std::sync::mpsc::channel::<String>();
+    let rd = std::thread::spawn(move || {
+        let mut l = String::new();
+        if std::io::BufReader::new(so).read_line(&mut l).is_ok() {
+            let _ = tx.send(l);
+        }
+    });
+    let res = match rx.recv_timeout(std::time::Duration::from_secs(timeout_s)) {
+        Ok(l) if !l.trim().is_empty() => l.trim_end().split_once(' ').map(|(_, r)| r.to_string()).unwrap_or_default(),
+        Ok(_) | Err(std::sync::mpsc::RecvTimeoutError::Disconnected) => {
+            let st = ch.wait().ok();
+            format!("abort {} m=0 t=0", st.map(|s| format!("{}", s).replace(' ', "_")).unwrap_or_default())
+        }
+        Err(std::sync::mpsc::RecvTimeoutError::Timeout) => "timeout m=0 t=0".to_string(),
+    };
+    let _ = ch.kill();
+    let _ = ch.wait();
+    let _ = rd.join();
+    res
+}
+
 fn run_in_children(cases: &[String], infile: &str, per_input_timeout_s: u64, workers: usize) -> Vec<String> {
     std::fs::write(infile, cases.join("\n") + "\n").unwrap();
     let exe = std::env::current_exe().unwrap();
@@ -649,16 +685,15 @@ fn run_in_children(cases: &[String], infile: &str, per_input_timeout_s: u64, wor
                         }
                         Err(std::sync::mpsc::RecvTimeoutError::Timeout) => {
                             let _ = ch.kill();
-                            res.push((next, "timeout m=0 t=0".into()));
+                            res.push((next, run_alone(&exe, &infile, next, 6 * per_input_timeout_s)));
                             next += 1;
                             break;
                         }
                         Err(std::sync::mpsc::RecvTimeoutError::Disconnected) => {
                             // the child died while working on case `next`
                             if next < hi {
-                                let st = ch.wait().ok();
-                                let how = st.map(|s| format!("{}", s).replace(' ', "_")).unwrap_or_default();
-                                res.push((next, format!("abort {} m=0 t=0", how)));
+                                let _ = ch.wait();
+                                res.push((next, run_alone(&exe, &infile, next, 6 * per_input_timeout_s)));
                                 next += 1;
                             }
                             break;
